@@ -90,16 +90,19 @@ func Remainder(left, right value.Value) error {
 		switch right.Type() {
 		case value.IntegerType: // RTIME %= INTEGER
 			rv := value.Unwrap[*value.Integer](right)
-			if rv.Value == 0 {
+			// the divisor in nanoseconds can also overflow to zero
+			divisor := time.Duration(rv.Value) * time.Second
+			if divisor == 0 {
 				return errors.WithStack(fmt.Errorf("remainder by zero"))
 			}
-			lv.Value %= (time.Duration(rv.Value) * time.Second)
+			lv.Value %= divisor
 		case value.FloatType: // RTIME %= FLOAT
 			rv := value.Unwrap[*value.Float](right)
-			if time.Duration(rv.Value) == 0 {
+			divisor := time.Duration(rv.Value) * time.Second
+			if divisor == 0 {
 				return errors.WithStack(fmt.Errorf("remainder by zero"))
 			}
-			lv.Value %= (time.Duration(rv.Value) * time.Second)
+			lv.Value %= divisor
 		default:
 			return errors.WithStack(fmt.Errorf("invalid division RTIME type, got %s", right.Type()))
 		}
